@@ -65,6 +65,21 @@ Proof.
   repeat split; try reflexivity. exists [1; 2]. split; [discriminate | reflexivity].
 Qed.
 
+(* (d) the peer's receive window is exhausted (its application has not read yet): a datagram that arrives, in order, on a
+   loss-free network is dropped by inputData; the closer has discarded sendBuf; the close request is acted upon.
+   Scaled down: capacity 2 instead of segmentTreeCapacity; the driver shows it with 4097 one-segment writes. *)
+Definition udp3_rcap2 : cfg := mkCfg UDP 3 close_wait_iterations true false 16 0 2.
+Definition w_udp_rwindow : list choice :=
+  [CWrite; CWrite; CWrite; CClose; ONew; ONew; ONew; ONew; CTick; DUdp 0; DUdp 1; DUdp 2; DUdp 3; RTest; RTest; RTest; RWaitClosed].
+
+Lemma udp_receive_window_refuted :
+  exists sched st, run udp3_rcap2 init sched = Some st /\ clean_truncation udp3_rcap2 st /\ discarded st = false
+                   /\ gap st = true /\ read_so_far st = [0; 1].
+Proof.
+  exists w_udp_rwindow. eexists. split; [vm_compute; reflexivity|].
+  repeat split; try reflexivity. exists [2]. split; [discriminate | reflexivity].
+Qed.
+
 (* TCP: only a schedule in which the output loop does not take oLock during the whole wait truncates *)
 Definition w_tcp_starved : list choice :=
   [CWrite; CWrite; CWrite; CClose] ++ repeat_choice CTick (N.to_nat close_wait_iterations) ++ [CForce; DTcp; RTest; RWaitClosed].
@@ -210,7 +225,8 @@ Proof.
       intro Ho. apply orb_false_elim in Ho. destruct Ho as [Ho Hq].
       apply negb_false_iff, N.eqb_eq in Hq. subst q.
       rewrite app_assoc, (I1 Ho). symmetry. apply iota_next.
-    + (* UDP *) destruct (q <? nextRecv st).
+    + (* UDP *) destruct (q <? nextRecv st); [|destruct (c_rcap c <=? lenN (rbuf st) + lenN (rqueue st))].
+      * unfold INV; cbn. repeat split; try discriminate; try assumption; try (intro; contradiction); try (exfalso; apply Hne; assumption).
       * unfold INV; cbn. repeat split; try discriminate; try assumption; try (intro; contradiction); try (exfalso; apply Hne; assumption).
       * destruct (flush (S (length (if memN q (rbuf st) then rbuf st else q :: rbuf st))) (nextRecv st)
                         (if memN q (rbuf st) then rbuf st else q :: rbuf st) (rqueue st)) as [[nr rb'] rq'] eqn:F.
@@ -337,3 +353,44 @@ Proof. eexists. split; [vm_compute; reflexivity|]. repeat split; reflexivity. Qe
 (* the constants the witnesses rely on *)
 Lemma close_wait_is_one_second : (C03_closeWaitIterations * C03_closeWaitTickNs = 1000000000)%Z.
 Proof. reflexivity. Qed.
+
+(* ------------------------------------------------------------------ hand-off through recvChan *)
+
+(* Whatever the capacity of the channel and however the event loop and the input loop interleave, the session
+   handles the dispatched segments in dispatch order: what is still in the channel plus what was handled is what
+   was there plus what was dispatched. *)
+Lemma handoff_fifo : forall c cap evs st ch st' ch',
+  hrun c cap (st, ch) evs = Some (st', ch') ->
+  fold_left (recv_input c) ch' st' = fold_left (recv_input c) (ch ++ dispatched evs) st.
+Proof.
+  intros c cap evs. induction evs as [|e rest IH]; intros st ch st' ch' H; cbn [hrun] in H.
+  - inversion H; subst. cbn. rewrite app_nil_r. reflexivity.
+  - destruct e as [s|]; unfold hstep in H.
+    + destruct (Nat.ltb (length ch) cap); [|discriminate].
+      rewrite (IH _ _ _ _ H). cbn [dispatched]. rewrite <- app_assoc. reflexivity.
+    + destruct ch as [|s t]; [discriminate|].
+      rewrite (IH _ _ _ _ H). reflexivity.
+Qed.
+
+(* once the channel has been emptied, the peer's state is the one the delivery-time transitions of the model compute *)
+Lemma handoff_in_order : forall c cap evs st st',
+  hrun c cap (st, []) evs = Some (st', []) ->
+  st' = fold_left (recv_input c) (dispatched evs) st.
+Proof. intros c cap evs st st' H. apply handoff_fifo in H. exact H. Qed.
+
+(* the seeded change: data 0, data 1 and the close request arrive in order on a loss-free stream; the close request
+   finds the channel full, is acted upon at once, and segment 1 is never handled: EOF after a strict prefix *)
+Definition tcp2c : cfg := current_cfg TCP 2 0 0.
+Definition w_bypass : list hev := [HDispatch (Data 0); HInput; HDispatch (Data 1); HDispatch (CloseReq 2)].
+
+Lemma handoff_bypass_refuted :
+  exists evs st, hrun_bypass tcp2c 1 (init, []) evs = Some (st, []) /\ dispatched evs = [Data 0; Data 1; CloseReq 2] /\
+                 rclosed st = true /\ gap st = true /\ rqueue st = [0] /\ nextRecv st = 1 /\
+                 (exists st2, hrun tcp2c 1 (init, []) (evs ++ [HInput]) = None /\
+                              hrun tcp2c 2 (init, []) (evs ++ [HInput; HInput]) = Some (st2, []) /\ gap st2 = false /\ rqueue st2 = [0; 1]).
+Proof.
+  exists w_bypass. eexists. split; [vm_compute; reflexivity|].
+  do 5 (split; [reflexivity|]).
+  eexists. split; [vm_compute; reflexivity|].
+  split; [vm_compute; reflexivity|]. split; reflexivity.
+Qed.
